@@ -152,6 +152,18 @@ Relax(x) == IF x.op \in {"bol", "eol", "wb"} THEN Leaf("empty", "")
 RECURSIVE Size(_)
 Size(x) == IF x.s = <<>> THEN 1 ELSE IF Len(x.s) = 1 THEN 1 + Size(x.s[1]) ELSE 1 + Size(x.s[1]) + Size(x.s[2])
 
+RECURSIVE Branches(_)              \* branch instructions of the compiled program (counted repetition is unrolled)
+Branches(x) == CASE x.s = <<>> -> 0
+                 [] x.op = "cap" -> Branches(x.s[1])
+                 [] x.op \in {"star", "plus", "quest"} -> 1 + Branches(x.s[1])
+                 [] x.op = "rep" -> IF x.m = Inf THEN (x.n + 1) * Branches(x.s[1]) + 1
+                                    ELSE x.m * Branches(x.s[1]) + (x.m - x.n)
+                 [] x.op = "cat" -> Branches(x.s[1]) + Branches(x.s[2])
+                 [] x.op = "alt" -> 1 + Branches(x.s[1]) + Branches(x.s[2])
+\* ConstantSuffix walks both exits of every branch without memoisation: its running time doubles with every
+\* branch in sequence, so the random generator keeps the number of branches small (promptness is not part of C18)
+MaxBranches == 12
+
 RECURSIVE Depth(_)
 Depth(x) == IF x.s = <<>> THEN 0 ELSE IF Len(x.s) = 1 THEN 1 + Depth(x.s[1]) ELSE 1 + Max2(Depth(x.s[1]), Depth(x.s[2]))
 
@@ -199,7 +211,7 @@ Row(x) ==
         dead == Dead(x)
     IN [ast |-> x, re |-> Render(x), dead |-> dead,
         tmin |-> IF dead THEN Inf ELSE TrueMin(x), tmax |-> IF dead THEN Inf ELSE TrueMax(x),
-        assert |-> HasAssert(x), size |-> Size(x), depth |-> Depth(x),
+        assert |-> HasAssert(x), size |-> Size(x), depth |-> Depth(x), branches |-> Branches(x),
         sigma |-> Sigma, L |-> L,
         lang |-> {Str(w) : w \in lang}, sane |-> SaneFor(x, lang)]
 
@@ -226,7 +238,7 @@ GenNext ==
        \E b \in {RandomElement({"cat", "alt", "cat"})} :
          LET cand == IF dice <= 35 THEN Un(u, r)
                      ELSE IF dice <= 70 THEN Bin(b, r, y) ELSE Bin(b, y, r)
-         IN r' = IF Size(cand) <= MaxSize THEN cand ELSE r
+         IN r' = IF Size(cand) <= MaxSize /\ Branches(cand) <= MaxBranches THEN cand ELSE r
     /\ d' = d + 1
 
 GenSpec == Init /\ [][GenNext]_<<r, d>>
